@@ -24,6 +24,14 @@ def strNode (s : Bytes) : Outcome PTree :=
 def bareNode (t : Bytes) : PTree :=
   if t = ascii "true" then .bool true else if t = ascii "false" then .bool false else .num t
 
+/-- `encodeScalarField`: the JSON node written for a scalar -/
+def scalarNode (O : Oracle) (k : ScalarKind) (v : PVal) : Outcome PTree :=
+  match encodeScalar O k v with
+  | .ok (.quoted s) => strNode s
+  | .ok (.bare t) => .ok (bareNode t)
+  | .err e => .err e
+  | .panic w => .panic w
+
 /-- first failure in document order wins -/
 def consMember (r : Outcome (Option (Bytes × Bytes × PTree))) (rest : Outcome PMembers) :
     Outcome PMembers :=
@@ -81,6 +89,13 @@ def hasProp (env : Env) : Nat → PropDef → Fields → Bool
       | _ => false
     | path => (getPath m path).isSome
 
+/-- `GetOne`'s test: is member `q` of the oneof set in message `m`? (`GetValue` goes through the
+name map, so for a duplicated JSON name the last property answers) -/
+def oneofSet (env : Env) (f : Nat) (ops : List PropDef) (m : Fields) (q : PropDef) : Bool :=
+  match findProp ops q.jsonName with
+  | some q' => hasProp env f q' m
+  | none => false
+
 mutual
 /-- `GetValue(p)` then `encodeValue`: `none` = not set (the member is omitted) -/
 def encField (env : Env) (O : Oracle) : Nat → PropDef → Fields → Outcome (Option PTree)
@@ -133,11 +148,7 @@ def encObjectBody (env : Env) (O : Oracle) : Nat → List PropDef → Fields →
 def encOneofBody (env : Env) (O : Oracle) : Nat → List PropDef → Fields → Outcome PTree
   | 0, _, _ => .panic "fuel"
   | f + 1, ops, m =>
-    let setOnes := ops.filter fun q =>
-      match findProp ops q.jsonName with
-      | some q' => hasProp env (f + 1) q' m
-      | none => false
-    match setOnes with
+    match ops.filter (oneofSet env (f + 1) ops m) with
     | [] => .ok (.obj (.nil .closed))
     | [q0] =>
       match findProp ops q0.jsonName with
@@ -169,12 +180,7 @@ def encValue (env : Env) (O : Oracle) : Nat → Field → PVal → Outcome PTree
   | 0, _, _ => .panic "fuel"
   | f + 1, fld, v =>
     match fld with
-    | .scalar k =>
-      match encodeScalar O k v with
-      | .ok (.quoted s) => strNode s
-      | .ok (.bare t) => .ok (bareNode t)
-      | .err e => .err e
-      | .panic w => .panic w
+    | .scalar k => scalarNode O k v
     | .enum ref =>
       match env.find ref, v with
       | some (.enum _ opts), .enum n =>
